@@ -227,6 +227,32 @@ impl LazyElementVar {
     { unimplemented!() }
 }
 pub open spec fn ov(e: ElementVar) -> P4 { lz_pt(e.inner) }
+//#if SOUND
+pub open spec fn dec_rel_s(s: int, p: P4) -> bool { !is_neg(s) && exists|v0: int| #[trigger] isqrt_weak(dec_den(s), true, v0) && p == spec_decode_v(s, v0) }
+pub open spec fn wit_rel_s(s: int, q: P4) -> bool { exists|p: P4| #[trigger] dec_rel_s(s, p) && (q == p || (spec_eq(q, p) && on_curve(q))) }
+impl Borrow<Fq> for Fq { open spec fn borrow_spec(&self) -> Fq { *self } fn borrow(&self) -> (r: &Fq) { self } }
+// native affine point type of the crate (A-ARK-2): only its conversion to a group element is used here
+#[derive(Clone, Copy)]
+pub struct AffinePoint { pub inner: EdwardsProjective }
+impl AffinePoint {
+    #[verifier::external_body]
+    pub fn into_group(self) -> (r: Element) { unimplemented!() }
+}
+impl Borrow<AffinePoint> for AffinePoint { open spec fn borrow_spec(&self) -> AffinePoint { *self } fn borrow(&self) -> (r: &AffinePoint) { self } }
+impl FqVar {
+    // AllocVar<Fq, Fq> for FpVar: nothing is promised about a witnessed value in the soundness reading
+    #[verifier::external_body]
+    pub fn new_variable<T: Borrow<Fq>, G: FnOnce() -> Result<T, SynthesisError>>(cs: ConstraintSystemRef<Fq>, f: G, mode: AllocationMode) -> (r: Result<FqVar, SynthesisError>)
+    { unimplemented!() }
+}
+impl ElementVar {
+    // AllocVar::new_input (arkworks default method) = <ElementVar as AllocVar<Fq, Fq>>::new_variable(cs, f, Input): contract of new_variable#fq below
+    #[verifier::external_body]
+    pub fn new_input<G: FnOnce() -> Result<Fq, SynthesisError>>(cs: ConstraintSystemRef<Fq>, f: G) -> (r: Result<ElementVar, SynthesisError>)
+        ensures match r { Ok(e) => lz_from_enc(e.inner), Err(_) => true }
+    { unimplemented!() }
+}
+//#endif
 // COMPL: every forcing of this variable succeeds
 pub open spec fn ok_var(e: ElementVar) -> bool { lz_from_enc(e.inner) ==> spec_decode(lz_enc(e.inner)) is Some }
 """
@@ -351,6 +377,43 @@ def outer_unit(mode):
               ensures=("r is Ok ==> " if sound else "r is Ok, ") + "!lz_from_enc(final(self).inner) && add_post(ov(*old(self)), ov(*old(self)), ov(*final(self)))"))
     o(cvo, Fn("negate", props=(tag,), preamble=bu, requires=None if sound else "ok_var(*self)",
               ensures=f"match r {{ Ok(v) => !lz_from_enc(v.inner) && ov(v) == te_neg(ov(*self)), {E_} }}"))
+
+    # ---- the three AllocVar impls of element.rs, soundness reading (C14).  Three inherent fns of one name cannot coexist,
+    # so each is emitted under a variant name (R13b) and the one call between them is renamed accordingly.
+    if sound:
+        plumb = [("R7", r'core::borrow::Borrow<', 'Borrow<'), ("R7", r'(?<![\w:])Borrow<', 'Borrow<'),
+                 ("R7", r'impl\s+Into<ark_relations::r1cs::Namespace<Fq>>', 'Namespace<Fq>'), ("R7", r'\bcs\.into\(\)', 'cs')]
+        # imported: inner new_variable (proved in r1cs_fwd_sound); the namespace conversion of its first argument is the identity here
+        pf = None
+        for it_ in fwd_unit(mode).items:
+            if it_.mode == "verify" and it_.header == "impl AllocVar<Element, Fq> for ElementVar":
+                pf = it_.fns[0]
+        inner_nv = Fn("new_variable", requires="call_requires(f, ()), !(mode is Input)",
+                      ensures="match r { Ok(e) => mode is Witness ==> exists|s: int| #[trigger] wit_rel_s(s, pvi(e)), Err(_) => true }")
+        if pf is None or _norm(pf.ensures) != _norm(inner_nv.ensures) or _norm(pf.requires) != _norm(inner_nv.requires):
+            from vx.rsscan import LostAnchor
+            raise LostAnchor("imported contract r1cs_fwd_sound :: new_variable differs from the proving unit's contract")
+        items.append(Item(INN, "impl AllocVar<Element, Fq> for ElementVar", [dataclasses.replace(inner_nv, subst=[
+            ("R7", r'core::borrow::Borrow<', 'Borrow<'), ("R7", r'impl\s+Into<ark_relations::r1cs::Namespace<Fq>>', 'ConstraintSystemRef<Fq>')] + ren)],
+            mode="stub", proved_in=fwd, header_out="impl InnerElementVar"))
+        o("impl AllocVar<Fq, Fq> for ElementVar", Fn("new_variable", variant="#fq", props=(tag,), preamble=bu, subst=plumb,
+          requires="call_requires(f, ())",
+          ensures="match r { Ok(e) => lz_from_enc(e.inner), Err(_) => true }"))
+        o("impl AllocVar<Element, Fq> for ElementVar", Fn("new_variable", variant="#element", props=(tag,),
+          preamble=bu + " let ghost mut gs_: int = 0; let ghost mut gp_: P4 = id4();",
+          subst=plumb + [("R20", r'InnerElementVar::new_variable\(cs, f, mode\)\?',
+                          r'{ let c_ = InnerElementVar::new_variable(cs, f, mode)?; proof { if mode is Witness { gs_ = choose|s: int| wit_rel_s(s, pvi(c_)); gp_ = pvi(c_); assert(wit_rel_s(gs_, gp_)); } } c_ }')],
+          epilogue="match &r_ { Ok(e) => { if mode is Witness { assert(ov(*e) == gp_); assert(wit_rel_s(gs_, ov(*e))); } } Err(_) => {} }",
+          requires="call_requires(f, ())",
+          ensures="match r { Ok(e) => mode is Witness ==> !lz_from_enc(e.inner) && exists|s: int| #[trigger] wit_rel_s(s, ov(e)), Err(_) => true }",
+          tag="C14: witnessed coordinates cannot be forged (outer layer)"))
+        o("impl AllocVar<AffinePoint, Fq> for ElementVar", Fn("new_variable", variant="#affine", props=(tag,), preamble=bu,
+          subst=plumb + [("R13b", r'\bSelf::new_variable\(', 'Self::new_variable__element('),
+                         ("R9", r'\|\|\s*f\(\)\.map\(', '|| -> (q_: Result<Element, SynthesisError>) requires call_requires(f, ()) { f().map('),
+                         ("R9", r'(\.into_group\(\)\)),(\s*mode\))', r'\1 },\2')],
+          requires="call_requires(f, ())",
+          ensures="match r { Ok(e) => mode is Witness ==> !lz_from_enc(e.inner) && exists|s: int| #[trigger] wit_rel_s(s, ov(e)), Err(_) => true }",
+          tag="C14: witnessed coordinates cannot be forged (AffinePoint entry point)"))
 
     # ---- src/ark_curve/r1cs/ops.rs
     def oop(hdr, tr, m, rhs_t, rhs_view, post, assign=False, rhs_ok=None):
